@@ -5,36 +5,10 @@
 (* Layout: the definitions used by the statements come first, then auxiliary lemmas; the theorems
    of the property (unchanged statements) are proved where their ingredients are available. *)
 From MQ Require Import Base Codec Codec_proofs Inbound Parse.
+From MQ Require Export ParseSpec.
 Open Scope N_scope.
 
-(* ---------- definitions of the statements ---------- *)
-(* the length-prefixed topic at the front of a PUBLISH body, if the body is long enough *)
-Definition topic_of (body : list N) : option (list N * list N) :=
-  match body with
-  | hi :: lo :: r =>
-      let n := N.to_nat (hi * 256 + lo) in
-      if Nat.leb n (length r) then Some (firstn n r, skipn n r) else None
-  | _ => None
-  end.
-
-Definition malformed (typ flag : N) (body : list N) : bool :=
-  match typ with
-  | 2 => negb (flag =? 0) || negb (Nat.eqb (length body) 2)             (* CONNACK: flags 0, length 2 *)
-  | 3 => let q := (flag / 2) mod 4 in
-         (q =? 3)                                                        (* QoS 3 *)
-         || match topic_of body with
-            | None => true                                               (* body shorter than its topic *)
-            | Some (t, r) => existsb (N.eqb 0) t                         (* U+0000 in the topic *)
-                             || (negb (q =? 0) && Nat.ltb (length r) 2)  (* no room for the identifier *)
-            end
-  | 4 | 5 | 7 | 9 | 11 => negb (flag =? 0) || Nat.ltb (length body) 2    (* illegal flags / short body *)
-  | 6 => negb (flag =? 2) || Nat.ltb (length body) 2
-  | 13 => negb (flag =? 0)
-  | _ => true                                                            (* unknown or client-to-server type *)
-  end.
-
-Definition protocol_error (e : perr) : Prop :=
-  e = EInvalidPacket \/ e = EInvalidPacketLength \/ e = EInvalidRune.
+(* the definitions used by the statements (topic_of, malformed, protocol_error) are in ParseSpec.v *)
 
 (* ---------- Go primitives ---------- *)
 Lemma unpack_uint16_cons hi lo r : unpack_uint16 (hi :: lo :: r) = Ok (hi * 256 + lo).
@@ -142,6 +116,50 @@ Qed.
 
 Lemma decode_runes_bad s : existsb bad_rune (decode_runes s) = existsb (N.eqb 0) s.
 Proof. apply (decode_runes_bad_aux (length s)). lia. Qed.
+
+(* a byte 00 decodes to the rune U+0000 wherever it stands: after ASCII, after a complete
+   multi-byte character, after (or inside) an invalid, truncated or overlong sequence — the Go
+   conversion []rune(string) resynchronises byte by byte and never swallows a byte below 0x80 *)
+Lemma decode_runes_nul_aux : forall n s, (length s <= n)%nat -> In 0 s -> In 0 (decode_runes s).
+Proof.
+  induction n as [|n IH]; intros s Hl Hin.
+  { destruct s; [destruct Hin | cbn [length] in Hl; lia]. }
+  destruct s as [|b0 r]; [destruct Hin|].
+  cbn [length] in Hl. rewrite decode_runes_cons.
+  destruct (b0 <? 128) eqn:E0.
+  { destruct Hin as [H|H]; [left; exact H | right; apply IH; [lia | exact H]]. }
+  assert (Hr : In 0 r). { destruct Hin as [H|H]; [lia | exact H]. }
+  assert (Herr : In 0 (RuneError :: decode_runes r)). { right. apply IH; [lia | exact Hr]. }
+  cbv zeta.
+  destruct r as [|b1 r1]; [exact Herr|]. cbn [length] in Hl.
+  destruct ((192 <=? b0) && (b0 <? 224)) eqn:E2.
+  { destruct (cont b1) eqn:C1; [|exact Herr].
+    destruct (127 <? b0 mod 32 * 64 + b1 mod 64); [|exact Herr].
+    right. apply IH; [lia|].
+    destruct Hr as [H|H]; [subst b1; discriminate C1 | exact H]. }
+  destruct ((224 <=? b0) && (b0 <? 240)) eqn:E3.
+  { destruct r1 as [|b2 r2]; [exact Herr|]. cbn [length] in Hl.
+    destruct (cont b1 && cont b2) eqn:C; [|exact Herr].
+    apply andb_true_iff in C as [C1 C2].
+    destruct ((2047 <? b0 mod 16 * 4096 + b1 mod 64 * 64 + b2 mod 64) &&
+              negb ((55296 <=? b0 mod 16 * 4096 + b1 mod 64 * 64 + b2 mod 64) &&
+                    (b0 mod 16 * 4096 + b1 mod 64 * 64 + b2 mod 64 <=? 57343))); [|exact Herr].
+    right. apply IH; [lia|].
+    destruct Hr as [H|[H|H]]; [subst b1; discriminate C1 | subst b2; discriminate C2 | exact H]. }
+  destruct ((240 <=? b0) && (b0 <? 248)) eqn:E4; [|exact Herr].
+  destruct r1 as [|b2 [|b3 r3]]; [exact Herr | exact Herr |]. cbn [length] in Hl.
+  destruct (cont b1 && cont b2 && cont b3) eqn:C; [|exact Herr].
+  apply andb_true_iff in C as [C C3]. apply andb_true_iff in C as [C1 C2].
+  destruct ((65535 <? b0 mod 8 * 262144 + b1 mod 64 * 4096 + b2 mod 64 * 64 + b3 mod 64) &&
+            (b0 mod 8 * 262144 + b1 mod 64 * 4096 + b2 mod 64 * 64 + b3 mod 64 <=? 1114111));
+    [|exact Herr].
+  right. apply IH; [lia|].
+  destruct Hr as [H|[H|[H|H]]];
+    [subst b1; discriminate C1 | subst b2; discriminate C2 | subst b3; discriminate C3 | exact H].
+Qed.
+
+Theorem decode_runes_nul s : In 0 s -> In 0 (decode_runes s).
+Proof. apply (decode_runes_nul_aux (length s)). lia. Qed.
 
 (* ---------- unpackString and the parsers in closed form ---------- *)
 Lemma topic_of_some body t r : topic_of body = Some (t, r) ->
@@ -303,6 +321,52 @@ Proof.
   destruct (existsb (N.eqb 0) t); cbn [orb]; [apply cl_err, pe3|].
   destruct ((flag / 2) mod 4 =? 0); cbn [negb andb]; [apply cl_ok|].
   destruct r as [|a [|c p]]; [apply cl_err, pe2 | apply cl_err, pe2 | apply cl_ok].
+Qed.
+
+(* ---------- U+0000 anywhere in the topic ---------- *)
+Lemma topic_of_exact hi lo t r : N.to_nat (hi * 256 + lo) = length t ->
+  topic_of (hi :: lo :: t ++ r) = Some (t, r).
+Proof.
+  intros H. unfold topic_of. cbv zeta. rewrite H, app_length.
+  destruct (Nat.leb (length t) (length t + length r)) eqn:E; [|apply Nat.leb_gt in E; lia].
+  rewrite firstn_app, Nat.sub_diag, firstn_all, skipn_app, Nat.sub_diag, skipn_all.
+  cbn [firstn skipn app]. rewrite app_nil_r. reflexivity.
+Qed.
+
+Lemma has_nul_in t : In 0 t <-> existsb (N.eqb 0) t = true.
+Proof.
+  rewrite existsb_exists. split.
+  - intros H. exists 0. split; [exact H | reflexivity].
+  - intros (x & Hx & E). apply N.eqb_eq in E. subst x. exact Hx.
+Qed.
+
+(* for ALL byte strings t (well-formed UTF-8 or not) with a consistent length prefix: a byte 00
+   anywhere in t makes unpackString fail with ErrInvalidRune *)
+Theorem unpack_string_nul_anywhere hi lo t r :
+  N.to_nat (hi * 256 + lo) = length t -> In 0 t ->
+  unpack_string (hi :: lo :: t ++ r) = Err EInvalidRune.
+Proof.
+  intros Hl Hin. rewrite unpack_string_spec, (topic_of_exact hi lo t r Hl).
+  apply has_nul_in in Hin. rewrite Hin. reflexivity.
+Qed.
+
+(* ... so the PUBLISH is malformed in the sense of the property and its parser says so, whatever
+   bytes stand before and after the 00 and whatever follows the topic *)
+Theorem publish_nul_anywhere flag hi lo pre post r :
+  N.to_nat (hi * 256 + lo) = length (pre ++ 0 :: post) ->
+  malformed 3 flag (hi :: lo :: (pre ++ 0 :: post) ++ r) = true /\
+  exists e, parse_publish flag (hi :: lo :: (pre ++ 0 :: post) ++ r) = Err e /\ protocol_error e.
+Proof.
+  intros Hl.
+  assert (Hin : In 0 (pre ++ 0 :: post)) by (apply in_or_app; right; left; reflexivity).
+  apply has_nul_in in Hin.
+  split.
+  - unfold malformed. cbv zeta. rewrite (topic_of_exact hi lo _ r Hl), Hin.
+    cbn [orb]. apply orb_true_r.
+  - rewrite parse_publish_spec. cbv zeta.
+    destruct ((flag / 2) mod 4 =? 3); [exists EInvalidPacket; split; [reflexivity | apply pe1]|].
+    rewrite (topic_of_exact hi lo _ r Hl), Hin.
+    exists EInvalidRune. split; [reflexivity | apply pe3].
 Qed.
 
 (* ---------- no parser panics ---------- *)
@@ -858,6 +922,62 @@ Proof.
     rewrite H. cbn [serve_stream]. rewrite Hrp. reflexivity.
 Qed.
 
+(* ---------- every byte stream, classified ---------- *)
+Lemma read_len_err k acc cur rest e : read_len k acc cur rest = Err e -> e = EEOF \/ e = EInvalidPacketLength.
+Proof.
+  revert k acc cur. induction rest as [|b r IH]; intros k acc cur; rewrite read_len_eq;
+    destruct (cur <? 128); try discriminate; destruct (3 <=? k); try (intros H; injection H as <-; tauto).
+  apply IH.
+Qed.
+
+Lemma read_full_err n s e : read_full n s = Err e -> e = EEOF \/ e = EUnexpectedEOF.
+Proof.
+  unfold read_full. destruct (2 ^ 47 <? n); [discriminate|]. destruct (n =? 0); [discriminate|].
+  destruct s as [|x s]; [intros H; injection H as <-; tauto|].
+  destruct (N.of_nat (length (x :: s)) <? n); [|discriminate]. intros H; injection H as <-; tauto.
+Qed.
+
+Lemma read_packet_err s e a : read_packet s = (RP_err e, a) ->
+  e = EEOF \/ e = EUnexpectedEOF \/ e = EInvalidPacketLength.
+Proof.
+  destruct s as [|h [|l0 r]].
+  - intros H. injection H as <- _. tauto.
+  - intros H. injection H as <- _. tauto.
+  - rewrite read_packet_cons2.
+    destruct (read_len 0 0 l0 r) as [[n r1]|e0|] eqn:E; [| |discriminate].
+    + destruct (read_full n r1) as [[body rest]|e1|] eqn:F; try discriminate.
+      intros H. injection H as <- _. apply read_full_err in F. tauto.
+    + intros H. injection H as <- _. apply read_len_err in E. tauto.
+Qed.
+
+(* for EVERY byte stream: the loop ends with a protocol error exactly when the stream, cut into
+   frames, contains a malformed packet (or a fifth length byte); otherwise it runs until the
+   stream ends (EOF, or unexpected EOF inside a truncated packet) *)
+Theorem serve_stream_classified f : forall h sb s, (length s < f)%nat ->
+  exists e, snd (serve_stream f h sb s) = EndErr e /\
+    if stream_malformed f s then protocol_error e else (e = EEOF \/ e = EUnexpectedEOF).
+Proof.
+  induction f as [|f IH]; intros h sb s Hl; [lia|]. cbn [serve_stream stream_malformed].
+  pose proof (read_packet_no_panic s) as Hnp.
+  destruct (read_packet s) as [r alloc] eqn:Erp. cbn [fst] in *.
+  destruct r as [typ flag body rest|e|]; [| |congruence].
+  - pose proof (dispatch_classified h sb typ flag body) as Hc.
+    apply read_packet_shrinks in Erp.
+    destruct (malformed typ flag body); cbn [classifies orb] in *.
+    + destruct Hc as (e & -> & He). exists e. split; [reflexivity | exact He].
+    + destruct Hc as ([sb' ev] & ->).
+      destruct (IH h sb' rest) as (e & He & Hcl); [lia|].
+      destruct (serve_stream f h sb' rest) as [evs e1]. cbn [snd] in *. exists e. split; assumption.
+  - exists e. split; [reflexivity|].
+    destruct (read_packet_err _ _ _ Erp) as [-> | [-> | ->]];
+      [left; reflexivity | right; reflexivity | apply pe2].
+Qed.
+
+Theorem serve_classified h s :
+  exists e, snd (serve h s) = EndErr e /\
+    if has_malformed s then protocol_error e else (e = EEOF \/ e = EUnexpectedEOF).
+Proof. apply serve_stream_classified. lia. Qed.
+
 (* ---------- non-vacuity ---------- *)
 Example ex_malformed_suback_short : malformed 9 0 [] = true.
 Proof. reflexivity. Qed.
@@ -868,6 +988,14 @@ Example ex_serve_mixed :
   ([EvAlloc 3; EvIn (Hand {| m_topic := [97]; m_id := 0; m_qos := 0; m_retain := false; m_dup := false; m_payload := [] |});
     EvAlloc 0], EndErr EInvalidPacketLength).
 Proof. vm_compute. reflexivity. Qed.
+
+(* "e-acute, NUL", "cafe-acute/NUL/x", "FF NUL": U+0000 behind a multi-byte or an invalid byte *)
+Example ex_nul_after_multibyte :
+  parse_publish 0 [0; 3; 195; 169; 0] = Err EInvalidRune /\
+  parse_publish 0 ([0; 9] ++ [99; 97; 102; 195; 169; 47; 0; 47; 120]) = Err EInvalidRune /\
+  parse_publish 0 [0; 2; 255; 0] = Err EInvalidRune /\
+  N.to_nat (0 * 256 + 3) = length ([195; 169] ++ 0 :: []).
+Proof. repeat split. Qed.
 
 Print Assumptions serve_no_panic.
 Print Assumptions serve_prefix_then_malformed.
